@@ -21,4 +21,5 @@ def main (args : List String) : IO UInt32 := do
   | ["digits"] => Rink.Driver.Digits.main; return 0
   | ["sandbox"] => Rink.Driver.Sandbox.main; return 0
   | ["eval", dump] => Rink.Driver.Eval.main dump; return 0
+  | ["ctxok", dump] => Rink.Driver.Eval.ctxokMain dump; return 0
   | _ => IO.eprintln "usage: rinkmodel <alloc | eval DUMP>"; return 2
